@@ -579,6 +579,28 @@ pub fn check_c15(case: &Case, w: usize) -> CheckResult {
     if let Some(k) = killer {
         let _ = k.join();
     }
+    // a listener that stays serves one run after the other: the next run of the same plan must
+    // come out the same again (real listener, no fault, small plans only - it doubles the time)
+    let mut second_run = false;
+    if matches!(case.listener, Listener::RealTail(_)) && case.fault == Fault::None && case.lock_delay_ms == 0 && case.plan.late_bursts == 0 && tail.is_some() && with == reference {
+        let again_res = run_and_collect(&mut env, &setup, limit, true, 0);
+        if again_res.is_err() {
+            env.kill_groups();
+        }
+        let (again, again_out) = again_res?;
+        second_run = true;
+        if again != reference {
+            let sig = if again.code == Some(2) { "c15.fatal" } else { "c15.outcome.differs" };
+            if let Some(mut t) = tail {
+                t.kill_group();
+            }
+            return viol_obs(
+                sig,
+                format!("the second run under the same listener {:?} differs from the same run without a listener", case.listener),
+                json!({"without": reference, "with": again, "stderr_with": again_out.stderr_str()}),
+            );
+        }
+    }
     stop.store(true, std::sync::atomic::Ordering::SeqCst);
     let mut connected = false;
     if let Some(h) = fake {
@@ -626,6 +648,7 @@ pub fn check_c15(case: &Case, w: usize) -> CheckResult {
         .class_if(mid_run && connected, "died-mid-run-while-connected")
         .class_if(case.plan.fail.is_some(), "plan-with-failing-task")
         .class_if(case.plan.not_exec.is_some(), "plan-with-a-command-file-lacking-the-x-bit")
+        .class_if(second_run, "second-run-under-the-same-listener")
         .class_if(case.plan.unterminated != 0, "unterminated-output")
         .class_if(case.plan.split_lines != 0, "split-lines")
         .class_if(case.plan.late_bursts != 0, "late-bursts>64KiB")
